@@ -1,0 +1,19 @@
+//go:build verif
+
+package repository
+
+import "github.com/ngicks/mockable"
+
+// VerifSetClock swaps the clock. Verification builds only.
+func (t *MutationHookTimer) VerifSetClock(c mockable.Clock) {
+	t.mu.Lock()
+	defer t.mu.Unlock()
+	t.clock = c
+}
+
+// VerifState exposes the cached head id, and the timerReset / started flags.
+func (t *MutationHookTimer) VerifState() (cachedId string, timerReset bool, started bool) {
+	t.mu.Lock()
+	defer t.mu.Unlock()
+	return t.cachedMin.Id, t.timerReset, t.isTimerStarted
+}
